@@ -40,8 +40,9 @@ PROPERTY = "C29"
 LEVEL = "exploration"
 RULE = ("Generated time grids (1-12 steps, non-uniform / uniform / scalar dt), scalar and per-step sigma, gamma, "
         "asperity, initial states, dyadic excitations; parameters fixed, tuple-prior, user model or (OU) default "
-        "steady-state x0 for the model classes. Each output is affine in the standard-normal latents: L = jacfwd "
-        "w.r.t. them, exact covariance L L^T and mean f(0) are compared with (R) the textbook transition recursion "
+        "steady-state x0 for the model classes. Each output is affine in the standard-normal latents: the columns of L "
+        "are the responses to the unit excitations (f(e_k) - f(0), one vmapped evaluation; affinity re-checked at a "
+        "generated excitation), the exact covariance L L^T and the mean f(0) are compared with (R) the textbook transition recursion "
         "A P A^T + Q and (K) the independently derived continuous-time kernel (closed form for constant parameters, "
         "Van Loan matrix-exponential discretisation of the SDE otherwise); the generic generator is compared with the "
         "docstring recursion evaluated in NumPy and, fed the oracle's (A_k, chol Q_k), with the specialised processes; "
@@ -50,11 +51,11 @@ LEVEL_TEXT = ("Search over generated grids, parameter shapes and parametrisation
               "complete (N+1)d x (N+1)d covariance matrix and the mean with two independently written references, "
               "so a wrong factor, exponent, ordering of the cumulative sums or a mis-indexed per-step parameter is "
               "seen on the first non-uniform case. Exploration: at most 12 steps, float64, host CPU.")
-LEVEL_NOTE = ("Trusted: numpy, scipy.linalg.expm, jax.jacfwd (forward-mode derivative of an affine map; affinity is "
-              "re-checked at a generated point in every case). Conventions where docstring and code differ in "
+LEVEL_NOTE = ("Trusted: numpy, scipy.linalg.expm, jax.vmap (the batch of unit excitations is evaluated in one call; "
+              "affinity is re-checked at a generated point in every case). Conventions where docstring and code differ in "
               "notation (asperity as variance ratio, OU sigma as steady-state standard deviation) are taken from "
               "the repository's tests / callers / the docstring's steady-state statement, see module docstring.")
-TECHNIQUE = "PBT: exact covariance via linearity (jacfwd) vs transition recursion + continuous-time kernel (closed form / Van Loan)"
+TECHNIQUE = "PBT: exact covariance via linearity (unit excitations) vs transition recursion + continuous-time kernel (closed form / Van Loan)"
 ASSUMPTIONS = [
     "float64, CPU; 1-12 steps; dt in [1/8, 2], sigma in [1/4, 3], gamma in [1/8, 2], asperity in [0, 2] (dyadic)",
     "integrated Wiener process: asperity enters the variance linearly, Q_xx = sigma^2 (dt^3/3 + asperity dt) "
@@ -268,15 +269,55 @@ def jarg(p, as0d=False, kind="jnp"):
     return jnp.asarray(float(p)) if as0d else float(p)
 
 
-def linear_map(f, xi0):
-    """(f(0), f(xi0), dense Jacobian at xi0) of an array function of one array"""
+_JIT = {}
+
+
+def batched(which, jit):
+    """xi-batched call of one of the functions under test: (X, *parameters) -> stacked outputs.
+
+    jit=True : one module-level compiled program per function, all parameters are arguments, so XLA compiles once
+               per shape signature and worker; jit=False: op-by-op (eager) evaluation of the vmapped function."""
     import jax
-    import jax.numpy as jnp
-    zero = jnp.zeros_like(xi0)
-    out0 = np.asarray(f(zero))
-    out1 = np.asarray(f(xi0))
-    J = np.asarray(jax.jacfwd(f)(xi0))
-    return out0, out1, J.reshape(out0.size, int(np.prod(xi0.shape, dtype=np.int64)))
+    from nifty.re import gauss_markov as gm
+    key = (which, jit)
+    if key in _JIT:
+        return _JIT[key]
+    if which == "wiener":
+        def fn(X, x0, sigma, dt):
+            return jax.vmap(lambda xi: gm.wiener_process(xi, x0, sigma, dt))(X)
+    elif which == "ou":
+        def fn(X, x0, sigma, gamma, dt):
+            return jax.vmap(lambda xi: gm.ornstein_uhlenbeck_process(xi, x0, sigma, gamma, dt))(X)
+    elif which == "iwp":
+        def fn(X, x0, sigma, dt, asp):
+            return jax.vmap(lambda xi: gm.integrated_wiener_process(xi, x0, sigma, dt, asp))(X)
+    elif which == "iwp_default_asperity":
+        def fn(X, x0, sigma, dt):
+            return jax.vmap(lambda xi: gm.integrated_wiener_process(xi, x0, sigma, dt))(X)
+    elif which == "generic":
+        def fn(X, x0, drift, diffamp):
+            return jax.vmap(lambda xi: gm.discrete_gauss_markov_process(xi, x0, drift, diffamp))(X)
+    else:
+        assert which == "scalar"
+
+        def fn(X, x0, drift, diffamp):
+            return jax.vmap(lambda xi: gm.scalar_gauss_markov_process(xi, x0, drift, diffamp))(X)
+    _JIT[key] = jax.jit(fn) if jit else fn
+    return _JIT[key]
+
+
+def probe_batch(lat):
+    """rows: 0, the generated excitation, all unit excitations"""
+    k = lat.size
+    return np.concatenate([np.zeros((1,) + lat.shape), lat[None], np.eye(k).reshape((k,) + lat.shape)], axis=0)
+
+
+def affine_parts(F):
+    """(f(0), f(xi), L) from the stacked outputs on probe_batch; L[:, k] = f(e_k) - f(0)"""
+    F = np.asarray(F, dtype=np.float64)
+    out0, out1 = F[0], F[1]
+    L = (F[2:] - F[0][None]).reshape(F.shape[0] - 2, -1).T
+    return out0, out1, L
 
 
 def compare_with_oracle(tag, orc, out0, out1, L, lat, classes):
@@ -296,25 +337,20 @@ def compare_with_oracle(tag, orc, out0, out1, L, lat, classes):
     classes.append(orc.kernel_kind)
 
 
-def process_call(proc, rec):
-    """closure xi -> bare process output for the recipe's parameters"""
+def process_args(proc, rec, traced):
+    """(name of the batched function, parameter tuple); traced => every parameter is an array"""
     import jax.numpy as jnp
-    from nifty.re import gauss_markov as gm
-    as0d = rec.get("as0d", False)
+    as0d = traced or rec.get("as0d", False)
     dt = jarg(rec["dt"], as0d)
     sigma = jarg(rec["sigma"], as0d)
     if proc == "wiener":
-        x0 = jarg(rec["x0"], as0d)
-        return lambda xi: gm.wiener_process(xi, x0, sigma, dt)
+        return "wiener", (jarg(rec["x0"], as0d), sigma, dt)
     if proc == "ou":
-        x0 = jarg(rec["x0"], as0d)
-        gamma = jarg(rec["gamma"], as0d)
-        return lambda xi: gm.ornstein_uhlenbeck_process(xi, x0, sigma, gamma, dt)
+        return "ou", (jarg(rec["x0"], as0d), sigma, jarg(rec["gamma"], as0d), dt)
     x0 = jnp.asarray(rec["x0"], dtype=jnp.float64)
     if rec["asp"] is None and rec.get("asp_omit", False):
-        return lambda xi: gm.integrated_wiener_process(xi, x0, sigma, dt)
-    asp = jarg(rec["asp"], as0d)
-    return lambda xi: gm.integrated_wiener_process(xi, x0, sigma, dt, asp)
+        return "iwp_default_asperity", (x0, sigma, dt)
+    return "iwp", (x0, sigma, dt, jarg(rec["asp"], as0d))
 
 
 def shape_classes(rec, n):
@@ -346,107 +382,121 @@ def varying(rec):
 
 def check_process(rec):
     import jax.numpy as jnp
-    from nifty.re import gauss_markov as gm
-    proc, n = rec["proc"], rec["n"]
+    proc, n, jit = rec["proc"], rec["n"], rec["jit"]
     d = 2 if proc == "iwp" else 1
     orc = Oracle(proc, n, rec["dt"], rec["sigma"], rec.get("gamma"), rec.get("asp"),
                  rec["x0"], np.zeros((d, d)))
-    f = process_call(proc, rec)
     lat = dyvec(rec["seed"], (n, 2) if d == 2 else (n,))
-    xi = jnp.asarray(lat)
-    out0, out1, L = linear_map(f, xi)
+    X = jnp.asarray(probe_batch(lat))
     classes = shape_classes(rec, n)
-    if rec.get("as0d"):
+    if rec.get("as0d") or jit:
         classes.append("scalars_as_0d_arrays")
+    classes.append("exec_jit" if jit else "exec_eager")
+    which, args = process_args(proc, rec, jit)
+    out0, out1, L = affine_parts(batched(which, jit)(X, *args))
     compare_with_oracle(proc, orc, out0, out1, L, lat, classes)
     # documented: first entry is x0
-    close_el(out1.reshape(n + 1, d)[0], np.atleast_1d(np.array(rec["x0"], dtype=np.float64)), f"{proc}_first_entry_is_x0", 0.0)
+    close_el(out1.reshape(n + 1, d)[0], np.atleast_1d(np.array(rec["x0"], dtype=np.float64)),
+             f"{proc}_first_entry_is_x0", 0.0)
 
     # ---- generic generator fed the oracle's transition (A_k, chol Q_k): same law
     x0v = jnp.asarray(np.atleast_1d(np.array(rec["x0"], dtype=np.float64)))
     drift = np.stack(orc.As)
     amp = np.stack([np.linalg.cholesky(Q) for Q in orc.Qs])
-    single = rec.get("generic_single", False) and orc.constant and not (isinstance(rec["dt"], list) and len(set(rec["dt"])) > 1)
-    if single:                      # homogeneous chain: one matrix instead of a sequence
-        jd, ja = jnp.asarray(drift[0]), jnp.asarray(amp[0])
-        classes.append("generic_single_matrix")
-    else:
-        jd, ja = jnp.asarray(drift), jnp.asarray(amp)
-        classes.append("generic_matrix_sequence")
-    xig = xi.reshape(n, d)
-
-    def g(x):
-        return gm.discrete_gauss_markov_process(x, x0v, jd, ja)
-
-    g0, g1, Lg = linear_map(g, xig)
-    require(g0.shape == (n + 1, d), "generic_output_shape", f"{g0.shape}")
-    close_el(g0, orc.mean, "generic_fed_transition_mean", orc.mean_abs)
-    close_el(Lg @ Lg.T, orc.cov, "generic_fed_transition_cov_vs_recursion", orc.scale)
-    close_el(Lg @ Lg.T, L @ L.T, f"generic_vs_{proc}_covariance", orc.scale)
-    # ---- path-wise agreement where the factor is fixed by convention
+    single = (rec.get("generic_single", False) and orc.constant
+              and not (isinstance(rec["dt"], list) and len(set(rec["dt"])) > 1))
+    classes.append("generic_single_matrix" if single else "generic_matrix_sequence")
+    sel = (lambda a: jnp.asarray(a[0])) if single else jnp.asarray     # homogeneous chain: one matrix, no sequence
+    Xg = X.reshape(X.shape[0], n, d)
     if d == 1:
-        sd = jnp.asarray(drift[:, 0, 0]) if not single else float(drift[0, 0, 0])
-        sa = jnp.asarray(amp[:, 0, 0]) if not single else float(amp[0, 0, 0])
-        x0s = jarg(rec["x0"], rec.get("as0d", False))
-        path = np.asarray(gm.scalar_gauss_markov_process(xi, x0s, sd, sa))
-        close_el(path, out1, f"scalar_generic_vs_{proc}_path", np.abs(out0) + np.abs(L) @ np.abs(lat))
-        classes.append("scalar_wrapper")
+        # 1x1 factor (unique up to sign): the scalar wrapper must reproduce the path of the specialised process
+        if single:
+            sd, sa = drift[0, 0, 0], amp[0, 0, 0]
+            sd, sa = (jnp.asarray(sd), jnp.asarray(sa)) if jit else (float(sd), float(sa))
+        else:
+            sd, sa = jnp.asarray(drift[:, 0, 0]), jnp.asarray(amp[:, 0, 0])
+        use_wrapper = rec.get("wrapper", True)
+        if use_wrapper:
+            G = batched("scalar", jit)(X, jarg(rec["x0"], jit or rec.get("as0d", False)), sd, sa)
+            classes.append("scalar_wrapper")
+            G = np.asarray(G)[:, :, None]
+        else:
+            G = batched("generic", jit)(Xg, x0v, sel(drift), sel(amp))
+        g0, g1, Lg = affine_parts(G)
+        pth = g1
     else:
+        g0, g1, Lg = affine_parts(batched("generic", jit)(Xg, x0v, sel(drift), sel(amp)))
+        # the upper-triangular factor of the repository's own test reproduces the IWP path-wise
         up = np.zeros((n, 2, 2))
         for k in range(n):
             dk, sk, ak = orc.dt[k], orc.sigma[k], orc.asp[k]
             up[k] = sk * np.sqrt(dk) * np.array([[np.sqrt(dk * dk / 12.0 + ak), dk / 2.0], [0.0, 1.0]])
             assert np.allclose(up[k] @ up[k].T, orc.Qs[k], rtol=1e-12, atol=0)
-        path = np.asarray(gm.discrete_gauss_markov_process(xig, x0v, jnp.asarray(drift), jnp.asarray(up)))
-        close_el(path.reshape(-1), out1.reshape(-1), "generic_vs_iwp_path_upper_factor",
-                 np.abs(out0.reshape(-1)) + np.abs(L) @ np.abs(lat.reshape(-1)))
+        pth = np.asarray(batched("generic", jit)(Xg, x0v, sel(drift), sel(up)))[1]
+    require(g0.shape == (n + 1, d), "generic_output_shape", f"{g0.shape}")
+    close_el(g0, orc.mean, "generic_fed_transition_mean", orc.mean_abs)
+    close_el(g1.reshape(-1), g0.reshape(-1) + Lg @ lat.reshape(-1), "generic_not_affine_in_excitations",
+             np.abs(g0.reshape(-1)) + np.abs(Lg) @ np.abs(lat.reshape(-1)))
+    close_el(Lg @ Lg.T, orc.cov, "generic_fed_transition_cov_vs_recursion", orc.scale)
+    close_el(Lg @ Lg.T, L @ L.T, f"generic_vs_{proc}_covariance", orc.scale)
+    close_el(pth.reshape(-1), out1.reshape(-1),
+             f"scalar_generic_vs_{proc}_path" if d == 1 else "generic_vs_iwp_path_upper_factor",
+             np.abs(out0.reshape(-1)) + np.abs(L) @ np.abs(lat.reshape(-1)))
     return dict(nontrivial=varying(rec), classes=classes)
 
 
 # ------------------------------------------------------------------ generic generator vs docstring recursion
+NB = 3          # excitation vectors per generic case
+
+
 def check_generic(rec):
     import jax.numpy as jnp
-    from nifty.re import gauss_markov as gm
-    n, d, m = rec["n"], rec["d"], rec["m"]
-    classes = [f"dim_{d}", f"steps_{'1' if n == 1 else '2_4' if n <= 4 else '5_12'}"]
+    n, d, m, jit = rec["n"], rec["d"], rec["m"], rec["jit"]
+    classes = [f"dim_{d}", f"steps_{'1' if n == 1 else '2_4' if n <= 4 else '5_12'}",
+               "exec_jit" if jit else "exec_eager"]
     if rec["mode"] == "scalar":
         # scalar wrapper: drift / diffamp scalars or per-step vectors
         dr, da = rec["drift"], rec["diffamp"]
-        xi = dyvec(rec["seed"], (n,))
+        xi = dyvec(rec["seed"], (NB, n))
         x0 = rec["x0"]
-        res = np.asarray(gm.scalar_gauss_markov_process(jnp.asarray(xi), jarg(x0, rec["as0d"]), jarg(dr, rec["as0d"]),
-                                                        jarg(da, rec["as0d"])))
+        as0d = jit or rec["as0d"]
+        res = np.asarray(batched("scalar", jit)(jnp.asarray(xi), jarg(x0, as0d), jarg(dr, as0d), jarg(da, as0d)))
+        require(res.shape == (NB, n + 1), "scalar_generic_output_shape", f"{res.shape}")
         drl, dal = expand(dr, n), expand(da, n)
-        ref, mag = [float(x0)], [abs(float(x0))]
-        for i in range(n):
-            ref.append(drl[i] * ref[i] + dal[i] * xi[i])
-            mag.append(abs(drl[i]) * mag[i] + abs(dal[i] * xi[i]))
-        close_el(res, np.array(ref), "scalar_generic_vs_docstring_recursion", np.array(mag))
+        for b in range(NB):
+            ref, mag = [float(x0)], [abs(float(x0))]
+            for i in range(n):
+                ref.append(drl[i] * ref[i] + dal[i] * xi[b, i])
+                mag.append(abs(drl[i]) * mag[i] + abs(dal[i] * xi[b, i]))
+            close_el(res[b], np.array(ref), "scalar_generic_vs_docstring_recursion", np.array(mag))
         classes += ["scalar_wrapper", "drift_" + ("seq" if isinstance(dr, list) else "scalar"),
                     "diffamp_" + ("seq" if isinstance(da, list) else "scalar")]
         nt = n >= 2 and (isinstance(dr, list) or isinstance(da, list))
         return dict(nontrivial=nt, classes=classes)
     drs = dyvec(rec["seed"] + 1, (n, d, d), den=8, hi=10)
     das = dyvec(rec["seed"] + 2, (n, d, m), den=4, hi=6)
-    xi = dyvec(rec["seed"], (n, m))
+    xi = dyvec(rec["seed"], (NB, n, m))
     x0 = dyvec(rec["seed"] + 3, (d,))
     if rec["drift_single"]:
         drs[:] = drs[0]
     if rec["diffamp_single"]:
         das[:] = das[0]
-    if rec["mode"] == "scalar_args":        # d == m == 1, python scalars handed to the generic function
-        jd = float(drs[0, 0, 0]) if rec["drift_single"] else jnp.asarray(drs)
-        ja = float(das[0, 0, 0]) if rec["diffamp_single"] else jnp.asarray(das)
+    if rec["mode"] == "scalar_args":        # d == m == 1, scalars handed to the generic function
+        sc = (lambda v: jnp.asarray(float(v))) if jit else float
+        jd = sc(drs[0, 0, 0]) if rec["drift_single"] else jnp.asarray(drs)
+        ja = sc(das[0, 0, 0]) if rec["diffamp_single"] else jnp.asarray(das)
         classes.append("scalar_args")
     else:
         jd = jnp.asarray(drs[0]) if rec["drift_single"] else jnp.asarray(drs)
         ja = jnp.asarray(das[0]) if rec["diffamp_single"] else jnp.asarray(das)
-    res = np.asarray(gm.discrete_gauss_markov_process(jnp.asarray(xi), jnp.asarray(x0), jd, ja))
-    ref, mag = [x0], [np.abs(x0)]
-    for i in range(n):
-        ref.append(drs[i] @ ref[i] + das[i] @ xi[i])
-        mag.append(np.abs(drs[i]) @ mag[i] + np.abs(das[i]) @ np.abs(xi[i]))
-    close_el(res, np.array(ref), "generic_vs_docstring_recursion", np.array(mag))
+    res = np.asarray(batched("generic", jit)(jnp.asarray(xi), jnp.asarray(x0), jd, ja))
+    require(res.shape == (NB, n + 1, d), "generic_output_shape", f"{res.shape}")
+    for b in range(NB):
+        ref, mag = [x0], [np.abs(x0)]
+        for i in range(n):
+            ref.append(drs[i] @ ref[i] + das[i] @ xi[b, i])
+            mag.append(np.abs(drs[i]) @ mag[i] + np.abs(das[i]) @ np.abs(xi[b, i]))
+        close_el(res[b], np.array(ref), "generic_vs_docstring_recursion", np.array(mag))
     classes += ["drift_" + ("single" if rec["drift_single"] else "seq"),
                 "diffamp_" + ("single" if rec["diffamp_single"] else "seq")]
     if m != d:
@@ -580,30 +630,32 @@ def check_models(rec):
         require(tuple(dom[k].shape) == tuple(np.shape(pos[k])), "model_domain_shape",
                 f"{k}: {dom[k].shape} vs {np.shape(pos[k])}")
     x = {k: jnp.asarray(pos[k]) for k in used}
-    call = jax.jit(mdl) if rec.get("jit") else mdl
-    if rec.get("jit"):
-        classes.append("jit")
-    out = np.asarray(call(x))
-    want_shape = (n + 1, 2) if d == 2 else (n + 1,)
-    require(out.shape == want_shape, "model_output_shape", f"{out.shape} vs {want_shape}")
-    # ---- model == bare function for the same latent input
-    ref = np.asarray(bare(x[name]))
-    close_el(out, ref, f"{proc}_model_vs_bare_function", np.abs(ref) + 1.0, tol=1e-10)
-    # ---- exact covariance of the model conditional on the hyper-parameter latents
+    classes.append("exec_jit" if rec["jit"] else "exec_eager")
     orc = Oracle(proc, n, rec["dt"], sig_val, kw_vals.get("gamma"), kw_vals.get("asp"), m0, P0)
     sizes = [int(np.prod(np.shape(pos[k]), dtype=np.int64)) for k in gauss_keys]
+    lat = np.concatenate([np.asarray(pos[k], dtype=np.float64).reshape(-1) for k in gauss_keys])
 
-    def f(flat):
+    def f(flat):                     # the model as a function of its standard-normal (non-hyper) latents
         y = dict(x)
         o = 0
         for k, s in zip(gauss_keys, sizes):
             y[k] = flat[o:o + s].reshape(np.shape(pos[k]))
             o += s
-        return call(y)
+        return mdl(y)
 
-    lat = np.concatenate([np.asarray(pos[k], dtype=np.float64).reshape(-1) for k in gauss_keys])
-    out0, out1, L = linear_map(f, jnp.asarray(lat))
-    close_el(out1, out, "model_flat_vs_dict_evaluation", 0.0)
+    def everything(xx, B):
+        return mdl(xx), bare(xx[name]), jax.vmap(f)(B)
+
+    out, ref, F = (jax.jit(everything) if rec["jit"] else everything)(x, jnp.asarray(probe_batch(lat)))
+    out, ref = np.asarray(out), np.asarray(ref)
+    out0, out1, L = affine_parts(F)
+    want_shape = (n + 1, 2) if d == 2 else (n + 1,)
+    require(out.shape == want_shape, "model_output_shape", f"{out.shape} vs {want_shape}")
+    # ---- model == bare function for the same latent input
+    close_el(out, ref, f"{proc}_model_vs_bare_function", np.abs(ref) + 1.0, tol=1e-10)
+    # ---- exact covariance of the model conditional on the hyper-parameter latents
+    close_el(out1.reshape(-1), out.reshape(-1), "model_flat_vs_dict_evaluation",
+             np.abs(out0.reshape(-1)) + np.abs(L) @ np.abs(lat), tol=1e-12)
     compare_with_oracle(proc + "_model", orc, out0, out1, L, lat, classes)
     if x0s["k"] == "none" and orc.constant:
         classes.append("ou_stationary")
@@ -646,7 +698,8 @@ def process_recipes(proc):
         def rec(draw):
             n = _steps(draw, tier)
             r = {"proc": proc, "n": n, "dt": _dt(draw, n), "sigma": _param(draw, SIG, n),
-                 "seed": draw(SEED), "as0d": draw(st.booleans()), "generic_single": draw(st.booleans())}
+                 "seed": draw(SEED), "as0d": draw(st.booleans()), "generic_single": draw(st.booleans()),
+                 "jit": draw(st.booleans()), "wrapper": draw(st.booleans())}
             if proc == "ou":
                 r["gamma"] = _param(draw, GAM, n)
             if proc == "iwp":
@@ -674,11 +727,13 @@ def generic_recipes(tier):
         if mode == "scalar":
             E = S.dyadic(-2.0, 2.0, 8)
             return {"mode": mode, "n": n, "d": 1, "m": 1, "drift": _param(draw, E, n, 0.5),
-                    "diffamp": _param(draw, E, n, 0.5), "x0": draw(X0), "seed": draw(SEED), "as0d": draw(st.booleans())}
+                    "diffamp": _param(draw, E, n, 0.5), "x0": draw(X0), "seed": draw(SEED), "as0d": draw(st.booleans()),
+                    "jit": draw(st.integers(0, 3)) != 0}
         d = 1 if mode == "scalar_args" else draw(st.sampled_from([1, 2, 2, 3]))
         m = d if mode == "scalar_args" or draw(st.integers(0, 3)) else draw(st.sampled_from([1, 2, 3]))
         ds, as_ = draw(st.booleans()), draw(st.booleans())
-        return {"mode": mode, "n": n, "d": d, "m": m, "drift_single": ds, "diffamp_single": as_, "seed": draw(SEED)}
+        return {"mode": mode, "n": n, "d": d, "m": m, "drift_single": ds, "diffamp_single": as_, "seed": draw(SEED),
+                "jit": draw(st.integers(0, 3)) != 0}
     return rec()
 
 
@@ -701,7 +756,7 @@ def model_recipes(tier):
         proc = draw(st.sampled_from(["wiener", "iwp", "ou"]))
         n = draw(st.sampled_from([1, 2, 3, 4, 6, 12] if tier == "quick" else list(range(1, 13))))
         r = {"proc": proc, "n": n, "dt": _dt(draw, n), "name": draw(st.sampled_from(["wp", "iwp", "oup", "gm", "xi"])),
-             "seed": draw(SEED), "jit": draw(st.integers(0, 3)) == 0, "nsteps_too": draw(st.booleans()),
+             "seed": draw(SEED), "jit": draw(st.integers(0, 5)) == 0, "nsteps_too": draw(st.booleans()),
              "sigma": _hyper(draw, SIG, n)}
         if proc == "ou":
             r["gamma"] = _hyper(draw, GAM, n)
